@@ -30,6 +30,7 @@ func genCase(rt *rapid.T) *Case {
 		Create:      rapid.SliceOfN(rapid.SampledFrom([]int{0, 0, 0, 1, 1, 2}), 0, 3).Draw(rt, "create"),
 		SendErr:     rapid.SampledFrom([]int{0, 0, 1, 2}).Draw(rt, "sendErr"),
 		RecvMode:    rapid.SampledFrom([]int{0, 0, 1, 1, 2}).Draw(rt, "recvMode"),
+		SendBlock:   rapid.SampledFrom([]int{0, 0, 0, 1, 1, 2, 3}).Draw(rt, "sendBlock"),
 		Deadline:    rapid.SampledFrom([]int{0, 0, 0, 5}).Draw(rt, "deadline"),
 		CancelAtErr: rapid.SampledFrom([]int{0, 0, 0, 1, 2, 3, 4, 5, 7}).Draw(rt, "cancelAtErr"),
 	}
